@@ -53,6 +53,11 @@ def run(chk):
         sdW["scene"]["atmosphere"]["V_wind"] = wind
         ac = gen.simple_wing_aircraft(N=3, b=rng.uniform(3, 5), sweep=rng.choice([None, 12.0]), reid=rng.random() < 0.5)
         st, st2 = twin_states(MX, rng, chk.hist, wind)
+        if i % 2 == 0:
+            # a position written with integers (as JSON files often have it): the wind there is still the wind
+            pos_i = [rng.randint(-200, 200), rng.randint(-200, 200), -rng.randint(100, 3000)]
+            st["position"], st2["position"] = list(pos_i), list(pos_i)
+            chk.count("integer-position")
         cs = {"aileron": round(rng.uniform(-3, 3), 2), "elevator": round(rng.uniform(-3, 3), 2)}
         try:
             a = gen.build_scene(MX, sdW, [("a", ac, st, cs)])
